@@ -98,7 +98,14 @@ def run(ctx):
             if isinstance(n, ast.Assign) and len(n.targets) == 1 and is_self_attr(n.targets[0]) and any(isinstance(x, ast.Name) and x.id in ctor for x in ast.walk(n.value)):
                 supplied.add(n.targets[0].attr)
         for p in sorted(supplied - set(PARAMS)):
-            stores = [x for x in walk_no_nested(fi.node) if isinstance(x, (ast.Assign, ast.AugAssign)) and any(is_self_attr(t, p) for t in (x.targets if isinstance(x, ast.Assign) else [x.target]))]
+            def _flat(ts):
+                for t in ts:
+                    if isinstance(t, (ast.Tuple, ast.List)):
+                        yield from _flat(t.elts)
+                    else:
+                        yield t
+
+            stores = [x for x in walk_no_nested(fi.node) if isinstance(x, (ast.Assign, ast.AugAssign)) and any(is_self_attr(t, p) for t in _flat(x.targets if isinstance(x, ast.Assign) else [x.target]))]
             for s_ in stores:
                 nid = v.cfg_id(s_)
                 ok = False
@@ -106,18 +113,27 @@ def run(ctx):
                     if not isinstance(n, ast.If):
                         continue
                     tid = v.cfg.by_ast[id(n.test)]
-                    for atom, _ in _atoms(n.test, True):
+                    test_i = v.inline(n.test)  # `current = self.p; if current is None:`
+                    for atom, _ in _atoms(test_i, True):
                         if isinstance(atom, ast.Compare) and norm(atom) in (f"self.{p} is None", f"self.{p} is not None"):
-                            lab = _implied_branch(n.test, atom, norm(atom).endswith("is None"))
+                            lab = _implied_branch(test_i, atom, norm(atom).endswith("is None"))
+                            # (the alias must have been read before any store to self.p: it is, when the test dominates the store)
                             if lab and v.cfg.branch_dominated(tid, lab, nid):
                                 ok = True
                 # `self.p = self.p` style no-ops and stores of the attribute's own value are no change
-                same = isinstance(s_, ast.Assign) and is_self_attr(s_.value, p)
+                same = isinstance(s_, ast.Assign) and is_self_attr(s_.value, p) and not isinstance(s_.targets[0], (ast.Tuple, ast.List))
                 # a value chosen earlier between the supplied and the inferred one (`x = self.p if ... else ...`): not decided
                 val = getattr(s_, "value", None)
+                if isinstance(s_, ast.Assign) and isinstance(s_.targets[0], (ast.Tuple, ast.List)) and isinstance(val, (ast.Tuple, ast.List)) and len(val.elts) == len(s_.targets[0].elts):
+                    val = next((e for t, e in zip(s_.targets[0].elts, val.elts) if is_self_attr(t, p)), val)
                 rv = v.inline(val) if val is not None else None
                 undecided = rv is not None and (any(is_self_attr(x, p) for x in ast.walk(rv)) or (isinstance(val, ast.Name) and isinstance(v.resolve(val), ast.Name)))
                 res.add("E-FIXED", f, norm(s_), p + ":store", "ok" if ok or same else ("unknown" if undecided else "violation"), "" if ok or same else f"self.{p} is assigned on a path where it may have been supplied: a `{p}` given at construction is changed by fit()", loc(fi, s_))
+    with res.guard("N-VECTYPE"):
+        from ..lints import check_vectorize_otypes
+
+        res.rules["N-VECTYPE"] = "a function handed to np.vectorize without otypes returns one numeric type on every path (the output dtype is taken from the first element)"
+        check_vectorize_otypes(ctx, res, "hypergraphx/communities/hy_mmsbm/model.py")
     # ---- closure: nobody else stores to self.u / self.w or mutates aliases in place
     with res.guard("closure: nobody else stores to self.u / self.w or mutates aliases in place"):
         clo = [g for g in R.closure(ctx, fi) if g.qualname != fi.qualname and g.name not in ("_init_w", "_init_u", "__init__", "_check_and_infer_param_consistency")]
